@@ -267,7 +267,7 @@ def gen_nested(rng, quick):
              'multipolygon:island_in_hole_random')
     if quick:
         fixed = [o for o in out if 'random' not in o['cls']]
-        keep = fixed[::max(1, len(fixed) // 260)] + [o for o in out if 'random' in o['cls']][::4]
+        keep = fixed[::2] + [o for o in out if 'random' in o['cls']][::4]
         return keep
     return out
 
